@@ -213,6 +213,12 @@ def m_wrapping(I, st, fr, args, path, gargs, t):
     ty, op = m.group(1), m.group(2).capitalize()
     rlo, rhi = INT_RANGES[ty]
     modulus = rhi - rlo + 1
+    from .absint import Lanes
+    if isinstance(args[0], Lanes) or isinstance(args[1], Lanes):
+        a_, b_ = args
+        if op in ('Add', 'Sub') and isinstance(a_, Lanes) and isinstance(b_, Int) and st.itv(b_)[0] == st.itv(b_)[1]:
+            return I.lanes_addsub(st, a_, st.itv(b_)[0], op == 'Sub')
+        args = [I.lanes_to_int(st, x) if isinstance(x, Lanes) else x for x in args]
 
     def rep(x):
         # a previous wrapping result stands for its unreduced term (congruent modulo 2^w)
@@ -867,6 +873,14 @@ def m_read_unaligned(I, st, fr, args, path, gargs, t):
     d = padd(p.slice.len.p, pconst(size), -1)
     if not st.sign(d) <= NONNEG:
         raise PanicExc('UB', {'fn': path, 'what': 'read of %d bytes requires len >= %d; not provable here' % (size, size)})
+    if getattr(I.opts, 'byte_positions', False):
+        # the word as the bytes at the next `size` positions (memory order; from_le makes lane j the j-th byte on every target)
+        from .absint import Lanes
+        lanes = []
+        for j in range(size):
+            ref = byte_at(I, st, I.mk(st, 'usize', padd(p.slice.len.p, pconst(j), -1), 0, None))
+            lanes.append(deref(I, st, ref))
+        return Lanes(ty, lanes)
     return st.fresh(ty, tag='rd')
 
 
